@@ -606,23 +606,44 @@ def minimum_norm_F2(case, i, r):
     return all(abs(a - b) <= 1e-4 * scale for a, b in zip(exp, r["out"])), D
 
 
+def expected_y(case, i, r):
+    """s(masked z) for every recorded coalition, in exact arithmetic (additive family)"""
+    w = class_weights(case, i)
+    c = chan_of(case["kind"], case["shape"])
+    ref = case["ref"] if case["ref"] is not None else ([0.5] * 3 if (case["kind"] == "img" and c == 3) else [0.0] * c)
+    mp = case["maps"][i] if case["maps"] is not None else list(range(npos_of(case["kind"], case["shape"])))
+    bias = sum(core.frac(t) * core.frac(k["b"]) for t, k in zip(case["ts"][i], case["params"]))
+    ys = []
+    for z in r["Z"]:
+        ys.append(bias + sum(wp * (core.frac(case["xs"][i][p]) if z[mp[p // c]] else core.frac(ref[p % c]))
+                             for p, wp in enumerate(w)))
+    return ys
+
+
 def classify_known(case, res, err, known):
-    """C07-kshap-F2: KernelShap exactness case with F == 2 whose answer is the minimum-norm pattern"""
+    """C07-kshap-F2: KernelShap exactness case where every input has F == 2, everything but the exactness clause is
+       right (coalition sizes, unit weights, y), and every compared input (design of rank 2, the most F = 2 allows)
+       shows the minimum-norm answer ((D1-D2)/2, (D2-D1)/2); inputs whose design has rank 1 were not compared"""
     if err is not None or res is None or case.get("stream") != "kshap":
         return None
     ids = {e["id"] for e in known if e.get("status") == "known"}
     if "C07-kshap-F2" not in ids:
         return None
+    matched = 0
     for i, r in enumerate(res["recs"]):
-        F = case_F(case, i)
-        if F != 2:
+        if case_F(case, i) != 2:
             return None
         if any(sum(z) != 1 or len(z) != 2 for z in r["Z"]) or any(v != 1.0 for v in r["w"]):
             return None
+        if [core.frac(v) for v in r["y"]] != expected_y(case, i, r):
+            return None
+        if rank([list(z) + [1] for z in r["Z"]]) < 2:
+            continue
         ok, D = minimum_norm_F2(case, i, r)
         if not ok:
             return None
-    return "C07-kshap-F2"
+        matched += 1
+    return "C07-kshap-F2" if matched else None
 
 
 def shrink(case):
